@@ -3,6 +3,7 @@ package main
 import (
 	"fmt"
 	"math"
+	"slices"
 	"strings"
 	"time"
 
@@ -78,6 +79,7 @@ func adapterOf(re *regexp2.Regexp) *compat.Regexp {
 
 func resetGlobals(periodNs int64) {
 	adapters = adapters[:0]
+	sharedRunes = sharedRunes[:0]
 	syntax.VerifResetGlobals() // first: the other packages' initialisers may refer to its objects
 	regexp2.VerifResetGlobals()
 	compat.VerifResetGlobals()
@@ -190,6 +192,7 @@ func runScript(sc *Scenario, ro runOpts) *runResult {
 		}
 		res[i] = re
 	}
+	shareRunes(sc)
 	// one compat adapter per Regexp for the whole run (an adapter object is long-lived in an application);
 	// filled in before the clients exist and only read afterwards
 	adapters = adapters[:0]
@@ -389,6 +392,12 @@ func runScript(sc *Scenario, ro runOpts) *runResult {
 		}
 	case vsim.StopWorldTime:
 		viol("clock-leak", -1, -1, "background task still alive at the clean-up bound (vnow=%v)", time.Duration(w.Vnow))
+	}
+	for i := range sharedRunes {
+		if !slices.Equal(sharedRunes[i].runes, sharedRunes[i].orig) {
+			viol("input-modified", -1, -1, "a []rune input of the run no longer spells its text: %s", clip(fmt.Sprintf("%q", string(sharedRunes[i].runes))))
+			break
+		}
 	}
 	for i := 0; i < w.NTasks(); i++ {
 		t := w.TaskAt(i)
